@@ -112,7 +112,7 @@ def main():
         elif r == 'unknown': chk.inconclusive.append({'status': 'solver-unknown', 'error': 'pool panic bmc'})
     # (i) the connection job never unwinds: skeleton obligations of C04 (transport faults, abstract and real application)
     cases = []
-    for entry in ('process',):
+    for entry in ('job', 'process'):
         for app in ('abstract', 'real'):
             for reqs in ('GET /a HTTP/1.1\r\nHost: x\r\n\r\n', 'GET / HTTP/1.1\r\n\r\n', 'BAD\r\n\r\n', 'GET /a HTTP/1.1\r\nRange: bytes=0-0\r\n\r\n', 'POST /form-url-encoded-enctype-post-method HTTP/1.1\r\n\r\na=b'):
                 cases.append(dict(ob='skeleton', entry=entry, app=app, request=reqs))
@@ -129,6 +129,11 @@ def main():
             st, out = chk.oracle.run([('pool', [w_['N']] + [H.Raw(c) for c in w_['tasks']])], timeout=30)[0]
             if st != 'ok': return {'reproduced': False, 'native': st}
             return {'reproduced': int(out[0]) < len(w_['tasks']), 'done': int(out[0])}
+        if w_['kind'] == 'skeleton' and w_.get('entry') == 'job':
+            # the job closure needs a real TcpStream: Server::run with one worker on loopback, hostile peers (reset before / in the
+            # middle of a request, immediate close), then a well-formed probe
+            st, out = chk.oracle.run([('job_reset', [])], timeout=30)[0]
+            return {'reproduced': st == 'ok' and out and out[0] == b'dead', 'native': (st, [x.decode('latin1') for x in out])}
         if w_['kind'] == 'skeleton':
             return C04.replay_native(chk, v)
         return {'reproduced': False}
